@@ -123,7 +123,7 @@ func p3Helpers(r *Run, rep *core.Report, rule string, mm *core.MapModel) {
 					okCAS, why = false, "the CAS on the resize flag at "+r.P.InstrPos(in)+" does not install a constant: the value readers must recognise as 'resize in progress' depends on run-time data"
 					return
 				}
-				if constant.Sign(ko.Value) != 0 || constant.Sign(kn.Value) == 0 {
+				if constSign(ko.Value) != 0 || constSign(kn.Value) == 0 {
 					okCAS, why = false, "the CAS on the resize flag at "+r.P.InstrPos(in)+" is not 0 -> non-zero"
 					return
 				}
@@ -134,7 +134,7 @@ func p3Helpers(r *Run, rep *core.Report, rule string, mm *core.MapModel) {
 					return
 				}
 				k, isK := core.StripConv(args[len(args)-1]).(*ssa.Const)
-				if !isK || k.Value == nil || constant.Sign(k.Value) != 0 {
+				if !isK || k.Value == nil || constSign(k.Value) != 0 {
 					okCAS, why = false, "the resize flag is stored with something other than 0 at "+r.P.InstrPos(in)
 				}
 			}
@@ -201,6 +201,26 @@ func p3Helpers(r *Run, rep *core.Report, rule string, mm *core.MapModel) {
 					return
 				}
 			})
+		}
+		// a boolean flag word (atomic.Bool): the loaded value is the test, true exactly for the owner's value
+		if K.Kind() == constant.Bool {
+			for _, f := range r.P.Funcs {
+				if f.Pkg != r.P.Xsync || core.AtomicAccessor(f) {
+					continue
+				}
+				core.Instrs(f, func(in ssa.Instruction) {
+					c, ok := in.(*ssa.Call)
+					if !ok {
+						return
+					}
+					if op, addr, isAt := core.AtomicOp(c); isAt && op == "Load" && mm.IsFlag(core.Addr(addr)) {
+						if b, isB := c.Type().Underlying().(*types.Basic); isB && b.Kind() == types.Bool {
+							nTests++
+							rep.Pass(rule, fn(f)+" flag test tells idle from resizing", r.P.InstrPos(in), "the flag is a boolean: the loaded value is true exactly while a resize owns it")
+						}
+					}
+				})
+			}
 		}
 		rep.MinCount(rule, mm.Name+" resize flag tests", nTests, 1)
 	}
@@ -745,12 +765,7 @@ func p4Resize(r *Run, rep *core.Report, prop string, mm *core.MapModel) {
 			if !ok || core.Callee(c) != mm.Copy {
 				return
 			}
-			var dest ssa.Value
-			for i := range mm.Copy.Params {
-				if familyParam(r, mm.Copy, i) {
-					dest = c.Call.Args[i]
-				}
-			}
+			dest := copyDest(r, mm, c)
 			same := false
 			for _, val := range publishVals {
 				if dest != nil && val == core.StripConv(dest) {
@@ -1364,4 +1379,15 @@ func derivesOnAllPaths(v, src ssa.Value, seen map[ssa.Value]bool, depth int) boo
 		}
 	}
 	return false
+}
+
+// constSign: sign of a numeric constant; a boolean flag value counts as 0 (false) / 1 (true).
+func constSign(v constant.Value) int {
+	if v.Kind() == constant.Bool {
+		if constant.BoolVal(v) {
+			return 1
+		}
+		return 0
+	}
+	return constant.Sign(v)
 }
